@@ -102,6 +102,12 @@ var c07Ops = []c07Op{
 			}
 		}
 	}},
+	{"AddImageFromData(jpeg)", func(d *document.Document, log *[]string) {
+		d.AddImageFromData(jpegBytes(4, 2, 6), "b.jpg", document.ImageFormatJPEG, 4, 2, nil)
+	}},
+	{"AddImageFromData(gif)", func(d *document.Document, log *[]string) {
+		d.AddImageFromData(gifBytes(3, 3, 7), "c.gif", document.ImageFormatGIF, 3, 3, nil)
+	}},
 }
 
 // Document origins: distinct documents may descend from a common source.
@@ -113,8 +119,8 @@ var c07OriginNames = []string{"new", "opened", "rendered"}
 // alphabets per origin (indices into c07Ops)
 var c07Alphabet = [][]int{
 	{0, 1, 2, 3, 4, 5, 6, 7, 8, 9, 10, 13},
-	{0, 1, 3, 6, 10, 11, 12, 14, 15},
-	{0, 1, 3, 6, 13, 11, 12, 14, 15},
+	{0, 1, 3, 6, 10, 11, 16, 17, 14, 15},
+	{0, 1, 3, 6, 13, 11, 16, 17, 14, 15},
 }
 
 func c07BaseDoc() *document.Document {
@@ -567,8 +573,8 @@ var c07Bodies = [][]int{
 	{6, 5},   // image, header
 	{10, 0},  // custom style, paragraph
 	{1, 8},   // AddFootnote, RemoveFootnote(1)
-	{11, 6},  // header(first), image          (bodies 8.. are also run on documents rendered from one shared template)
-	{12, 3},  // footer(even), list item
+	{17, 11}, // gif image, header(first)      (bodies 8.. are also run on documents rendered from one shared template)
+	{16, 3},  // jpeg image, list item
 	{13, 9},  // modify the Normal style, ToBytes
 }
 
@@ -872,7 +878,7 @@ func runC07(r *rep.Run) {
 	if r.Tier == "thorough" {
 		maxA, maxB, three = 3, 2, true
 	}
-	r.Rule = "documents of three origins (new; opened from the same bytes; rendered from one shared template); part S: all pairs of per-document histories over the origin's alphabet (11 / 7 / 7 operations) (lengths <= bounds) and ALL merges of the two sequences, executed on distinct documents in one process; part C: every schedule with <= 2 preemptions of 2 (thorough: 3) goroutines each building and saving its own document, scheduling points = every statement of every function that touches a mutable package-level variable or calls such a function, and every lock operation; oracle for both: each document's canonical package (per part) and accessor results equal those of its own history executed alone as the first activity of a fresh process; part R: the same bodies pairwise in a free-running -race build after 200 sequential warm-ups (race detector = detection only); non-trivial = a merge in which the documents alternate / a scenario with at least one branching scheduling point"
+	r.Rule = "documents of three origins (new; opened from the same bytes; rendered from one shared template); part S: all pairs of per-document histories over the origin's alphabet (12 / 10 / 10 operations, see bounds) (lengths <= bounds) and ALL merges of the two sequences, executed on distinct documents in one process; part C: every schedule with <= 2 preemptions of 2 (thorough: 3) goroutines each building and saving its own document, scheduling points = every statement of every function that touches a mutable package-level variable or calls such a function, and every lock operation; oracle for both: each document's canonical package (per part) and accessor results equal those of its own history executed alone as the first activity of a fresh process; part R: the same bodies pairwise in a free-running -race build after 200 sequential warm-ups (race detector = detection only); non-trivial = a merge in which the documents alternate / a scenario with at least one branching scheduling point"
 	r.Bounds["ops"] = len(c07Ops)
 	r.Bounds["origins"] = c07OriginNames
 	r.Bounds["alphabet_per_origin"] = []int{len(c07Alphabet[0]), len(c07Alphabet[1]), len(c07Alphabet[2])}
